@@ -35,3 +35,7 @@ Definition soiltemp_check (c : day_in float * list float * soiltemp_obs) : nat :
 Definition init_check (c : float * float * float * nat * list float) : nat :=
   let '(tmin, tmax, tbase, n, obs) := c in
   if floats_same (init_profile tmin tmax tbase n) obs then 0%nat else 1%nat.
+
+(* the bulk density of every 10-cm layer after hermes.Input: (horizons of the generated soil file, observed g.BD[0..N-1]) *)
+Definition bd_check (c : list (Z * Z * option float) * list float) : nat :=
+  let '(hs, obs) := c in if floats_same (layer_bd 0%Z hs) obs then 0%nat else 1%nat.
